@@ -581,6 +581,11 @@ class Concatenator(Group):  # pylint: disable=too-many-public-methods
 
             self.update_array_attribute(entity, label)
 
+        elif label == "metadata" and not isinstance(entity, Data):
+            # A dictionary is not an array attribute: writing it as one leaves an
+            # index entry without data and the group can no longer be loaded.
+            self.update_concatenated_attributes(entity)
+
         else:
             if isinstance(entity, Data):
                 label = entity.name
